@@ -88,3 +88,8 @@ Fixpoint has_comp (c : comp) (spec : list comp) : bool :=
       | _, _ => has_comp c spec'
       end
   end.
+
+(* ---- the guard around insert_return_vars in compile_cfg (GenRet.v says which one the source has) *)
+Inductive guard :=
+  | GuardExitRow   (* only if no Variable in cfg.exit_bb.sig.input_row is a return variable *)
+  | GuardNone.     (* unconditional call *)
